@@ -106,6 +106,10 @@ _SYM = (SymBool, SymInt, SymEnum, SymChoice)
 
 
 def sx_is(a, b):
+    if isinstance(a, SymEnum) and a._fixed is not None:
+        a = a._fixed
+    if isinstance(b, SymEnum) and b._fixed is not None:
+        b = b._fixed
     if isinstance(a, SymEnum) or isinstance(b, SymEnum):
         if isinstance(a, SymEnum) and isinstance(b, SymEnum):
             return SymBool(a.e == b.e) if a._cls is b._cls else False
@@ -149,6 +153,8 @@ def _eq(a, x):
 
 
 def sx_in(a, seq):
+    if isinstance(a, SymEnum) and a._fixed is not None:
+        a = a._fixed
     hook = getattr(type(seq), "sx_contains", None)
     if hook is not None:
         return hook(seq, a)
